@@ -73,18 +73,17 @@ theorem UExp.eq_of_toQ_eq (a b : UExp) (ha : a.valid = true) (hb : b.valid = tru
   rw [div_eq_div_iff hadq hbdq] at h
   have hz : a.num * (b.den : Int) = b.num * (a.den : Int) := by exact_mod_cast h
   -- a.den ∣ b.den and b.den ∣ a.den by coprimality
+  have hn : a.num.natAbs * b.den = b.num.natAbs * a.den := by
+    have := congrArg Int.natAbs hz
+    simpa [Int.natAbs_mul] using this
   have h1 : a.den ∣ b.den := by
-    have : (a.den : Int) ∣ a.num * (b.den : Int) := ⟨b.num, by rw [hz]; ring⟩
-    have hc : IsCoprime (a.den : Int) a.num := by
-      rw [Int.isCoprime_iff_gcd_eq_one, Int.gcd_comm]
-      simpa [Int.gcd] using hag
-    exact Int.natCast_dvd_natCast.mp (hc.dvd_of_dvd_mul_left this)
+    have hc : Nat.Coprime a.den a.num.natAbs := by
+      unfold Nat.Coprime; rw [Nat.gcd_comm]; exact hag
+    exact hc.dvd_of_dvd_mul_left ⟨b.num.natAbs, by rw [hn]; ring⟩
   have h2 : b.den ∣ a.den := by
-    have : (b.den : Int) ∣ b.num * (a.den : Int) := ⟨a.num, by rw [← hz]; ring⟩
-    have hc : IsCoprime (b.den : Int) b.num := by
-      rw [Int.isCoprime_iff_gcd_eq_one, Int.gcd_comm]
-      simpa [Int.gcd] using hbg
-    exact Int.natCast_dvd_natCast.mp (hc.dvd_of_dvd_mul_left this)
+    have hc : Nat.Coprime b.den b.num.natAbs := by
+      unfold Nat.Coprime; rw [Nat.gcd_comm]; exact hbg
+    exact hc.dvd_of_dvd_mul_left ⟨a.num.natAbs, by rw [← hn]; ring⟩
   have hden : a.den = b.den := Nat.dvd_antisymm h1 h2
   have hnum : a.num = b.num := by
     rw [hden] at hz
